@@ -34,13 +34,14 @@ Print Assumptions C03_access_spec_with_purge_refuted.
 
 (* ---------- the access API does not agree with ONE effective set in two corners (Effective.v is faithful) ---------- *)
 
-(* (a) AuthorizeAnyCollectionChannel of the EMPTY channel set (a document that is in no channel) in the DEFAULT
-   collection ignores a "*" held through a role: auth/role.go authorizeAnyChannel tests princ.Channels() (the user's
+(* (a) REPAIRED in /repo by a58a51d; the statement below is about the code BEFORE the repair ([authorize_any_with true]),
+   the model of the current code is [authorize_any] = [authorize_any_with false] (C03_authorize_any_agrees).
+   AuthorizeAnyCollectionChannel of the EMPTY channel set (a document that is in no channel) in the DEFAULT
+   collection ignored a "*" held through a role: auth/role.go authorizeAnyChannel tested princ.Channels() (the user's
    own channels) where the named-collection code also asks every role.  Witness: role 0 has admin channel "*", user 0
    has admin role 0: "*" is in the effective set, CanSeeCollectionChannel is true for every channel, a named collection
-   authorizes the empty set, the default collection does not.  Reproduced on the real code by the harness (monitor
-   effective_set, signature authorize-any-empty-set-ignores-role-star).  Minimal patch: in authorizeAnyChannel replace
-   `princ.Channels().Contains(ch.UserStarChannel)` by `princ.canSeeChannel(ch.UserStarChannel)`. *)
+   authorizes the empty set, the old default-collection code does not.  Reproduced on the real code with a58a51d
+   reverted (monitor effective_set, signature authorize-any-empty-set-ignores-role-star). *)
 Definition role_star_witness : list xop := [XSetRole 0 (Some [star]) 1; XSetUser 0 None (Some [0]) 2; XLoadUser 0].
 
 Theorem C03_authorize_any_agrees_refuted :
@@ -48,7 +49,8 @@ Theorem C03_authorize_any_agrees_refuted :
     xwf (xinit def) ops = true /\
     let v := view_of (xrun (xinit def) ops) u in
     In star (effective_set v) /\ can_see v 1 = true /\
-    authorize_any false v [] = true /\ authorize_any true v [] = false.
+    authorize_any_with true false v [] = true /\ authorize_any_with true true v [] = false /\
+    authorize_any true v [] = true.
 Proof.
   exists true, role_star_witness, 0. split; [vm_compute; reflexivity|]. cbv zeta.
   split; [vm_compute; right; left; reflexivity|]. repeat split; vm_compute; reflexivity.
